@@ -62,11 +62,11 @@ RULE = ('Values: (1) ENUMERATED - every concatenation of <= 5 (quick) / <= 7 (th
         'rewound (two scratch files per shard, rewritten in place); plus the text file re-opened with Python\'s default '
         'newline translation.  Each through iter_paragraphs(strict=...) and/or the Deb822(source, strict=...) '
         'constructor (first paragraph; on an iterator/file a second constructor call reads what follows and must find '
-        'nothing).  Which forms a value goes through: an enumerated value CONTAINING CR of <= 6 tokens (and every 8th of '
+        'nothing).  Which forms a value goes through: an enumerated value CONTAINING CR of <= 6 tokens (and every 32nd of '
         '7 tokens) in the 3-field layout -> BytesIO, the list without terminators, StringIO or the re-terminated list '
         '(both hand over str lines ending in LF) and one of the two files (+ for 1 in 4 a constructor re-read / the '
         'translated text file); every other accepted CR value (other layouts: the first '
-        'rotated layout only; 7 tokens; 1 in 2 (quick) / 2 in 3 (thorough) random ones) -> one (form, API) pair chosen '
+        'rotated layout only, for 7 tokens on every 2nd value; every 2nd value of 7 tokens; 1 in 2 (quick) / 3 in 4 (thorough) random ones) -> one (form, API) pair chosen '
         'by a CRC of the value out of 15 pairs (the six LF-only iter_paragraphs pairs weighing double); the remaining random CR values -> two LF-only forms + one '
         'constructor re-read; values without CR (there the LF-only cut equals the splitlines() cut) -> one pair for a '
         'rotating fraction; the dump of copy() -> one pair; a --replay runs all 18 (form, API) pairs.  '
@@ -128,17 +128,17 @@ FLOORS = {'quick': {'nontrivial': 47000,
                                  'lf:cr-value': 17000, 'lf:cr-value-4-forms': 5400, 'lf:cr-after-colon-blanks': 3700,
                                  'lf:cr-at-line-end': 10000, 'lf:cr-mid-line': 6500}},
           'thorough': {'nontrivial': 2800000,     # recording cap is 400000 per shard x 14
-                       'monitors': {'M.reread': 15000000, 'M.reread-lf': 2700000, 'M.must-reject': 3000000,
+                       'monitors': {'M.reread': 13800000, 'M.reread-lf': 1750000, 'M.must-reject': 3000000,
                                     'M.unchanged': 5200000, 'K.setitem-raise': 5200000},
                        'counters': {'enum-len:7': 10000000, 'enum-len:6': 1000000, 'enum-len:5': 100000,
                                     'accepted-multiline': 1300000, 'copy-checked': 49000, 'route:update': 64000,
                                     'route:ctor': 64000, 'route:setdefault': 22000,
-                                    'form:stringio': 400000, 'form:lines-nl': 400000, 'form:lines-bare': 500000,
-                                    'form:bytesio': 500000, 'form:textfile': 400000, 'form:binfile': 400000,
-                                    'form:textfile-universal': 130000, 'api:Deb822()': 800000,
-                                    'lf:cr-value': 900000, 'lf:cr-value-4-forms': 100000,
-                                    'lf:cr-after-colon-blanks': 160000, 'lf:cr-at-line-end': 480000,
-                                    'lf:cr-mid-line': 410000}}}
+                                    'form:stringio': 270000, 'form:lines-nl': 270000, 'form:lines-bare': 320000,
+                                    'form:bytesio': 320000, 'form:textfile': 270000, 'form:binfile': 290000,
+                                    'form:textfile-universal': 83000, 'api:Deb822()': 560000,
+                                    'lf:cr-value': 640000, 'lf:cr-value-4-forms': 64000,
+                                    'lf:cr-after-colon-blanks': 125000, 'lf:cr-at-line-end': 350000,
+                                    'lf:cr-mid-line': 290000}}}
 
 WS_FALSE = {'whitespace-separates-paragraphs': False}
 
@@ -310,12 +310,12 @@ class Sources(object):
         f = fs[which]
         if which not in self._written:
             f.seek(0)
-            f.truncate()
             if which == 't':
                 self.d.dump(f, text_mode=True)
             else:
                 self.d.dump(f)
-            f.flush()
+            f.truncate()                 # cut what is left of a longer previous dump (never truncate to 0 first:
+            f.flush()                    # ext4 then forces the blocks out on the next close() of any handle)
             self._written.add(which)
         f.seek(0)
         return f
@@ -616,9 +616,10 @@ def run_case(ctx, case):
     kind = case['kind']
     if kind == 'one':
         v = case['v']
+        h = zlib.crc32(v.encode('utf-8'))
         if '\r' not in v:
-            depth = 'one'
-        elif zlib.crc32(v.encode('utf-8')) % (2 if ctx.quick else 3) == 0:
+            depth = 'one' if ctx.quick or h % 4 == 1 else 'none'
+        elif h % (2 if ctx.quick else 4) == 0:
             depth = 'some'
         else:
             depth = 'one'
@@ -650,14 +651,17 @@ def run_case(ctx, case):
         cr = '\r' in v
         for li in chosen:
             lay = ENUM_LAYOUTS[li]
-            if li:
-                depth = 'one' if cr and li == chosen[1] else 'none'
+            if li:                   # other layouts: CR values only, on the first rotated layout (7 tokens: every 2nd)
+                depth = 'one' if cr and li == chosen[1] and (k <= 6 or n % 2 == 0) else 'none'
             elif cr:
-                depth = 'full' if k <= 6 or n % 8 == 0 else 'one'
+                if k <= 6 or n % 32 == 0:
+                    depth = 'full'
+                else:                # 7 tokens: every 2nd CR value gets one LF-only (form, API) pair
+                    depth = 'one' if n % 2 else 'none'
             elif k <= 5:
                 depth = 'one' if n % 8 == 0 or ('\n' in v and n % 2) else 'none'
             else:
-                depth = 'one' if n % (2 if k == 6 else 8) == 1 else 'none'
+                depth = 'one' if n % (4 if k == 6 else 32) == 1 else 'none'
             pristine[li] = assign_and_check(ctx, lay['fields'], lay['target'], v, 'setitem', pristine[li],
                                             depth=depth, salt=li)
 
